@@ -347,6 +347,8 @@ def rule_region_mask(ck):
     ck.clause('D5 (shared C01-D3/D4: get_masked flags out-of-box and masked cells)')
     c01.rule_sentinel(ck)
     c01.rule_mask_polarity(ck)
+    c01.rule_raw_coordinates(ck)
+    c01.rule_single_edge(ck)
 
 
 RULES = [rule_operators, rule_narrowing, rule_datetime, rule_effects, rule_spatial, rule_load, rule_paths, rule_region_mask]
